@@ -18,7 +18,7 @@ PLAN = {
                 gen_q=("barrier,continue,rerun,backoff,storm,longbatch", 60), gen_t=("barrier,continue,stop,rerun,backoff,storm,longbatch", 1000)),
     "C09": dict(mc_q=[("seq", 3, 1, 2, True), ("gated", 3, 2, 2, True), ("gatedcancel", 2, 2, 1, True), ("conc", 2, 2, 2, False)],
                 mc_t=[("seq", 4, 1, 2, True), ("gated", 4, 3, 1, True), ("gated", 3, 2, 2, True), ("gatedcancel", 3, 2, 2, True), ("conc", 3, 2, 2, False)],
-                gen_q=("stop,cancel,bigstop,onestop,stoprace,deadlinewait", 80), gen_t=("stop,cancel,bigstop,onestop,stoprace,deadlinewait", 2000)),
+                gen_q=("stop,cancel,bigstop,onestop,stoprace,deadlinewait,rerunstop", 80), gen_t=("stop,cancel,bigstop,onestop,stoprace,deadlinewait,rerunstop", 2000)),
     "C11": dict(mc_q=[("gatedcancel", 2, 2, 2, True), ("wait", 2, 2, 2, True), ("cancel", 2, 2, 1, False)],
                 mc_t=[("gatedcancel", 3, 2, 2, True), ("wait", 3, 2, 2, True), ("cancel", 3, 2, 2, False)],
                 gen_q=("cancel,waitcancel,bigcancel", 120), gen_t=("cancel,waitcancel,bigcancel", 3000)),
